@@ -78,15 +78,25 @@ func GetExtendedRelationLineNumber(typeName string, relation string, lines []str
 		return -1
 	}
 
+	// a type restriction list may be spread over several lines, and types may be called `type` or `extend`:
+	// a line inside an open `[` is never a declaration
+	openBrackets := 0
+
 	for index := start + 1; index < len(lines); index++ {
-		words := strings.Fields(declaration(lines[index]))
-		if len(words) > 0 && (words[0] == "type" || words[0] == "extend" || words[0] == "condition") {
-			break
+		decl := declaration(lines[index])
+
+		if openBrackets <= 0 {
+			words := strings.Fields(decl)
+			if len(words) > 0 && (words[0] == "type" || words[0] == "extend" || words[0] == "condition") {
+				break
+			}
+
+			if declares(lines[index], []string{"define"}, relation, ":") {
+				return index
+			}
 		}
 
-		if declares(lines[index], []string{"define"}, relation, ":") {
-			return index
-		}
+		openBrackets += strings.Count(decl, "[") - strings.Count(decl, "]")
 	}
 
 	return -1
